@@ -207,6 +207,12 @@ def write_replay(prop, res, viol, rundir):
 def minimise_and_confirm(prop, raw_path, rf, budget=150):
     """Returns (final_path, reproduced_bool)."""
     final = raw_path.replace(".raw.json", ".json")
+    if os.environ.get("VERIF_MIN_BUDGET"):
+        # sensitivity sweeps do not need small replay files
+        budget = int(os.environ["VERIF_MIN_BUDGET"])
+    if budget <= 0:
+        shutil.copy(raw_path, final)
+        return final, replay_reproduces(final)
     jobs = [{"mode": "minimise", "replay": raw_path, "budget_sec": budget}]
     out, rundir = run_workers(jobs, budget + 240)
     mini = None
